@@ -334,6 +334,7 @@ func valuesIn(doc []byte) map[string]int {
 
 func runC18(c *Ctx) {
 	c.rep.Rule = "randomly filled values of every wire root type (strings drawn from labelled hostile classes: XML metacharacters, CDATA terminators, control characters, surrogates, invalid UTF-8, legal Unicode, leading/trailing space; nil pointers and 0-2 element slices at random) marshalled by the library; documents sent by the real handlers; byte strings of 0 B .. 64 KiB (thorough: up to the decoder cap + 1) through the codec. Non-trivial = a value with at least one hostile string or a non-empty payload; distinct = distinct document / payload."
+	marshalStability(c, "xml.Marshal")
 	initKeys()
 	roots := []func() interface{}{
 		func() interface{} { return &samlp.ResponseType{} },
